@@ -263,8 +263,9 @@ void MEDDLY::prepost_set_mtrel<EOP, ATYPE>::_compute(int L,
     //
     // **************************************************************
     if (0==B || ATYPE::isUnreachable(av, A)) {
+        // The unreachable edge is already normalised: its value does not
+        // accumulate the value of the incoming edge.
         ATYPE::setUnreachable(cv, C);
-        EOP::accumulateOp(cv, av);
         C = resF->makeRedundantsTo(C, Clevel, L);
         return;
     }
